@@ -123,8 +123,10 @@ def ensure(configs=("FULL", "XEN"), repo=REPO):
         # keep the cache bounded: drop fact dirs other than the 6 most recent
         fd = os.path.join(CACHE, "facts")
         ents = sorted((os.path.getmtime(os.path.join(fd, e)), e) for e in os.listdir(fd))
+        now = time.time()
         for _m, e in ents[:-6]:
-            if e != h:
+            # never prune what a concurrent run may still be loading
+            if e != h and now - _m > 900:
                 shutil.rmtree(os.path.join(fd, e), ignore_errors=True)
         os.utime(d)
     finally:
